@@ -970,23 +970,134 @@ def _refresh_shard(ctx: Ctx, shard: int, nshards: int, n: int) -> None:
     hyp_run(ctx, "refresh", strat, lambda c: execute_refresh(ctx, c), n)
 
 
+# ======================================================================================================
+# Part D - the table inside a running overlay: nodes learnt from requests, the churn strategy, a node that moves
+# ======================================================================================================
+
+def execute_move(ctx: Ctx | None, case: dict) -> None:
+    """
+    Real DHTCommunity nodes: ``n`` neighbours contact A (they enter A's table through their requests), A's PingChurn
+    strategy takes ``steps`` steps, then ``movers`` of the neighbours move to another IP address (same key - the node
+    identifier contains a checksum of the address) and contact A again. Afterwards A's tables are audited from outside:
+    every stored node under the key of its CURRENT identifier, in the bucket that owns it, found by that identifier, no
+    identifier twice, bucket capacity.
+    """
+    from .. import vloop
+    from ..nodes import Node
+    from ..simnet import SimNet
+
+    async def main(loop):
+        from ipv8.dht.churn import PingChurn
+        from ipv8.dht.community import DHTCommunity
+        from ipv8.dht.routing import MAX_BUCKET_SIZE
+        from ipv8.dht.routing import Node as DHTNode
+        from ipv8.messaging.interfaces.udp.endpoint import UDPv4Address
+        net = SimNet(loop)
+        rng = random.Random(case["seed"])
+        a = Node(net, 0)
+        aov = a.add(DHTCommunity)
+        target = DHTNode(a.key.pub().key_to_bin(), UDPv4Address(*a.address))
+        nodes = []
+        try:
+            for i in range(case["n"]):
+                nd = Node(net, 1 + i, address=("3.%d.%d.1" % (rng.randrange(1, 250), rng.randrange(1, 250)), 9000 + i))
+                nd.add(DHTCommunity)
+                nodes.append(nd)
+                nd.overlay.ping(target)
+                await net.settle()
+            churn = PingChurn(aov, ping_interval=25.0)
+            for _ in range(case["steps"]):
+                churn.take_step()
+                await net.settle()
+            moved = 0
+            for nd in nodes[:case["movers"]]:
+                # the same identity shows up at another address (new lease, roaming): its old host is gone
+                nd.raw_endpoint.close()
+                nn = Node(net, 100 + nd.idx, address=("4.%d.%d.1" % (rng.randrange(1, 250), rng.randrange(1, 250)),
+                                                      9500 + nd.idx), key_index=nd.idx)
+                nn.add(DHTCommunity)
+                nodes.append(nn)
+                nn.overlay.ping(target)
+                await net.settle()
+                moved += 1
+                if case.get("steps_after"):
+                    churn.take_step()
+                    await net.settle()
+            for acls, table in aov.routing_tables.items():
+                seen: dict = {}
+                for bucket in table.trie.values():
+                    prefix = bucket.prefix_id
+                    if len(bucket.nodes) > MAX_BUCKET_SIZE:
+                        raise Violation("T3", "overlay:capacity", f"bucket {prefix!r} holds {len(bucket.nodes)} nodes", case)
+                    for key, node in bucket.nodes.items():
+                        nid = node.id
+                        where = f"bucket {prefix!r} of A's {acls.__name__} table after {moved} neighbour(s) moved to another IP"
+                        if key != nid:
+                            raise Violation("T2", "overlay:stale_key", f"{where}: a node whose identifier is {nid.hex()[:12]} "
+                                                                       f"(address {node.address}) is stored under "
+                                                                       f"{key.hex()[:12]}", case)
+                        if not binstr(nid).startswith(prefix):
+                            raise Violation("T2", "overlay:ownership", f"{where}: holds a node with identifier "
+                                                                       f"{binstr(nid)[:12]}..", case)
+                        if nid in seen:
+                            raise Violation("T2", "overlay:duplicate", f"{where}: identifier {nid.hex()[:12]} is also stored in "
+                                                                       f"bucket {seen[nid]!r}", case)
+                        seen[nid] = prefix
+                        if table.get(nid) is not node:
+                            raise Violation("T2", "overlay:lookup", f"{where}: get({nid.hex()[:12]}) does not return the stored "
+                                                                    f"node", case)
+            if ctx is not None:
+                ctx.case(("move", tuple(sorted(case.items()))), moved > 0 and case["steps"] > 0,
+                         cls="move:%dnodes:%dmovers" % (case["n"] // 5 * 5, case["movers"]))
+        finally:
+            for nd in [a, *nodes]:
+                try:
+                    await nd.unload()
+                except BaseException:  # noqa: BLE001
+                    pass
+    vloop.run(main)
+
+
+def _move_shard(ctx: Ctx, shard: int, nshards: int, n: int) -> None:
+    from hypothesis import strategies as st
+    k = 0
+    for nn in (3, 12, 20):
+        for movers in (1, 3):
+            for steps in (0, 1, 2):
+                k += 1
+                if k % nshards != shard:
+                    continue
+                try:
+                    execute_move(ctx, {"kind": "move", "seed": k, "n": nn, "movers": movers, "steps": steps, "steps_after": k % 2})
+                except Violation as v:
+                    ctx.violation(v)
+    strat = st.fixed_dictionaries({"kind": st.just("move"), "seed": st.integers(0, 1 << 20), "n": st.integers(1, 30),
+                                   "movers": st.integers(0, 4), "steps": st.integers(0, 3), "steps_after": st.integers(0, 1)})
+    hyp_run(ctx, "move", strat, lambda c: execute_move(ctx, c), n)
+
+
 def run(ctx: Ctx) -> None:
     if ctx.quick:
         shard_run(ctx, _table_shard, extra=(80, 300))
         shard_run(ctx, _trie_shard, extra=(((1, 6), (2, 4), (3, 3)),))
         shard_run(ctx, _trie_random_shard, extra=(150, 6))
         shard_run(ctx, _refresh_shard, extra=(6,))
+        shard_run(ctx, _move_shard, extra=(4,))
     else:
         shard_run(ctx, _table_shard, extra=(120, 2000, "tables-long"))
         shard_run(ctx, _table_shard, extra=(300, 300))
         shard_run(ctx, _trie_shard, extra=(((1, 8), (2, 6), (3, 4), (4, 3)),))
         shard_run(ctx, _trie_random_shard, extra=(3000, 7))
         shard_run(ctx, _refresh_shard, extra=(150,))
+        shard_run(ctx, _move_shard, extra=(100,))
 
 
 def replay(ctx: Ctx, case: dict) -> None:
     if case.get("kind") == "refresh":
         execute_refresh(None, case)
+        return
+    if case.get("kind") == "move":
+        execute_move(None, case)
         return
     if case.get("kind") == "trie":
         run = execute_trie(None, case)
